@@ -25,6 +25,9 @@ type c16Fan struct {
 	// DataOnly: RPM curve data is stored but no PWM map (older database, interrupted first start):
 	// the fan is swept on the start-up path instead of going through the initialization sequence
 	DataOnly bool `json:"dataOnly,omitempty"`
+	// PwmUnreadable: the PWM file cannot be read back (write-only control): the fan supports only one of
+	// the two sensing features, and fan2go falls back to the value it last set
+	PwmUnreadable bool `json:"pwmUnreadable,omitempty"`
 }
 
 type c16Scenario struct {
@@ -52,8 +55,12 @@ func genC16(t *rapid.T) c16Scenario {
 			f.Quant = rapid.SampledFrom([]int{16, 51, 64}).Draw(t, "quant")
 		}
 		f.Slew = rapid.SampledFrom([]int{0, 0, 100, 300, 1000}).Draw(t, "slew")
+		if f.Kind == "file" {
+			f.NoRpm = rapid.Bool().Draw(t, "noRpm") // a fan with only one of the two features (PWM read-back, tacho)
+		}
 		dataOnly := f.PwmMap == nil && rapid.IntRange(0, 3).Draw(t, "dataOnly") == 0
-		sc.Fans = append(sc.Fans, c16Fan{Spec: f, DataOnly: dataOnly, DelayMs: rapid.OneOf(rapid.IntRange(0, 30000), rapid.SampledFrom([]int{0, 0, 1, 1000, 2400, 3000})).Draw(t, "delayMs")})
+		unreadable := f.Kind == "hwmon" && !dataOnly && rapid.IntRange(0, 5).Draw(t, "pwmUnreadable") == 0
+		sc.Fans = append(sc.Fans, c16Fan{Spec: f, DataOnly: dataOnly, PwmUnreadable: unreadable, DelayMs: rapid.OneOf(rapid.IntRange(0, 30000), rapid.SampledFrom([]int{0, 0, 1, 1000, 2400, 3000})).Draw(t, "delayMs")})
 	}
 	return sc
 }
@@ -79,6 +86,9 @@ func runC16With(t *testing.T, sc c16Scenario, realTime bool) verdict {
 		rigs = append(rigs, sim.BuildRig(f.Spec, i, sim.RpmLaw{Theta: 0, Rpm: 1300}, 100))
 		if f.DataOnly {
 			pers.SeedLinearData(rigs[i].Fan.GetId())
+		}
+		if f.PwmUnreadable {
+			rigs[i].Pwm.SetReadMode(sim.ReadEIO)
 		}
 	}
 	defer func() {
